@@ -11,6 +11,7 @@ import (
 	"hash/fnv"
 	"math/rand"
 	"reflect"
+	"strings"
 	"time"
 
 	auth "github.com/pokt-network/posmint/x/auth"
@@ -98,6 +99,17 @@ func signBytesOf(tx authTypes.StdTx) []byte {
 }
 
 func (f *Fam) genWire(r *rand.Rand) string {
+	if r.Intn(6) == 0 { // coins in their text form: 1-3 denominations, amounts from the boundary-biased generator
+		var p []string
+		for i, d := range []string{"aaa", "stake", "upokt", "zzzzzzzzzzzzzzzz"} {
+			if r.Intn(2) == 0 || (i == 3 && len(p) == 0) {
+				a := genBig(r)
+				a.Abs(a)
+				p = append(p, d+":"+a.String())
+			}
+		}
+		return "mon.cointext " + strings.Join(p, ",")
+	}
 	switch r.Intn(5) {
 	case 0, 1:
 		return fmt.Sprintf("mon.tx %s %d", msgKinds[r.Intn(len(msgKinds))], r.Int63())
@@ -286,6 +298,35 @@ func (f *Fam) execWire(op string, w []string, fail func(string, string, string))
 		var si2 posTypes.ValidatorSigningInfo
 		if err := cdc.UnmarshalBinaryLengthPrefixed(sbz, &si2); err != nil || !reflect.DeepEqual(normSI(si), normSI(si2)) {
 			fail("roundtrip", "C20:signing-info-roundtrip", fmt.Sprintf("%s: %+v -> %+v (%v)", op, si, si2, err))
+		}
+		return "done"
+	case "mon.cointext": // Coin / Coins: String() followed by ParseCoin / ParseCoins gives the value back
+		var cs sdk.Coins
+		for _, it := range strings.Split(w[1], ",") {
+			x := strings.Split(it, ":")
+			amt, ok := sdk.NewIntFromString(x[1])
+			if !ok { // beyond 255 bits: not an Int
+				return "done"
+			}
+			cs = append(cs, sdk.Coin{Denom: x[0], Amount: amt})
+		}
+		for _, c := range cs {
+			back, err := sdk.ParseCoin(c.String())
+			if err != nil || back.Denom != c.Denom || !back.Amount.Equal(c.Amount) {
+				fail("roundtrip", "C20:coin-text-roundtrip", fmt.Sprintf("%s: ParseCoin(%q) = %v, %v", op, c.String(), back, err))
+			}
+		}
+		var nz sdk.Coins // the text form of a set lists its coins; zero amounts are dropped by the parser's validity rule
+		for _, c := range cs {
+			if c.Amount.IsPositive() {
+				nz = append(nz, c)
+			}
+		}
+		if len(nz) > 0 {
+			back, err := sdk.ParseCoins(nz.String())
+			if err != nil || back.String() != nz.String() {
+				fail("roundtrip", "C20:coins-text-roundtrip", fmt.Sprintf("%s: ParseCoins(%q) = %v, %v", op, nz.String(), back, err))
+			}
 		}
 		return "done"
 	case "mon.dec":
